@@ -1279,6 +1279,10 @@ class Translator:
             return self.lift([v], lambda c: Val(f"(str_drop {n} {c[0]})", STR))       # s[n:] on bytes: n ASCII characters
         if v.ty == ANY and not isinstance(e.slice, ast.Slice) and self.tr(e.slice, env).ty == INT:
             v = self.coerce(v, List(ANY), e)
+        if v.ty == ANY and not isinstance(e.slice, ast.Slice) and self.tr(e.slice, env).ty == ANY:
+            k = self.tr(e.slice, env)
+            self.cur.intrinsic_eff = True
+            return self.lift([v, k], lambda c: Val(f"(aval_get_any {c[0]} {c[1]})", ANY, True))
         if v.ty == ANY and not isinstance(e.slice, ast.Slice):
             k = self.coerce(self.tr(e.slice, env), STR, e)
             self.cur.intrinsic_eff = True
@@ -2267,6 +2271,9 @@ UNITS = [
     {"name": "glencoe", "imports": " Gen.Src_fm Gen.Tables_glencoe",
      "files": [("transformations/glencoe_writer.py", {},
                 ["_to_json", "_get_features_info", "_get_tree_info", "_get_constraints_info", "_get_ctc_info"])]},
+    {"name": "glencoer", "imports": " Gen.Src_fm",
+     "files": [("transformations/glencoe_reader.py", {}, [])],
+     "objects": {"transformations/glencoe_reader.py": {"GlencoeReader": ["_parse_ast_constraint"]}}},
     {"name": "jsonr", "imports": " Gen.Src_fm",
      "files": [("transformations/json_writer.py", {}, []),
                ("transformations/json_reader.py", {}, ["parse_constraints", "parse_ast_constraint"])]},
